@@ -5,7 +5,7 @@ from __future__ import annotations
 import ast
 
 from ..cfg import CFG, typestate, witness, calls_at, scope
-from ..loader import AnalysisError, Repo, body_nodoc, dotted, norm, walk_no_nested, enclosing, qualname, head
+from ..loader import AnalysisError, Repo, body_nodoc, dotted, norm, walk_no_nested, enclosing, qualname, head, strip_cast
 from ..report import Report
 
 LEVEL = "other"
@@ -254,3 +254,91 @@ def run(repo: Repo, rep: Report, tier: str) -> None:
     inv = [i for i in walk_no_nested(cs) if isinstance(i, ast.If) and norm(i.test) == "rsp.is_valid_response"]
     okc = bool(inv) and any(dotted(c.func) == "self.abort" for s in inv[0].orelse for c in ast.walk(s) if isinstance(c, ast.Call))
     rep.check(okc, "failure-path", "association.Association._check_received_status", "else: self.abort()", "an invalid response must abort the association and give an empty status", mod=assoc, node=cs)
+    check_queue_order(repo, rep)
+    check_type_dispatch(repo, rep)
+
+def check_queue_order(repo: Repo, rep: Report) -> None:
+    """DIMSEServiceProvider.get_msg() is the single consumer of the queue the provider thread fills in
+    arrival order (responses first, the (None, None) abort sentinel behind them). It may hand out only
+    what it dequeues, or (None, None) once the timed wait came back empty: a shortcut that answers
+    'nothing' from some other observation (a pending A-ABORT, a flag) overtakes the responses already
+    queued, and the caller loses them - possibly the final one."""
+    rep.rule("queue-order", "get_msg() returns the head of the message queue, or (None, None) only from the queue.Empty handler of the timed wait")
+    dm = repo.mod("dimse")
+    fn = repo.func("dimse", "DIMSEServiceProvider.get_msg")
+    fq = "dimse.DIMSEServiceProvider.get_msg"
+    rets = [r for r in walk_no_nested(fn) if isinstance(r, ast.Return)]
+    n = 0
+    for r in rets:
+        n += 1
+        v = strip_cast(r.value) if r.value is not None else None
+        from_queue = isinstance(v, ast.Call) and norm(v.func) == "self.msg_queue.get"
+        if not from_queue and isinstance(v, ast.Name):
+            b_ = [s_ for s_ in walk_no_nested(fn) if isinstance(s_, ast.Assign) and norm(s_.targets[0]) == v.id]
+            from_queue = bool(b_) and all(isinstance(strip_cast(s_.value), ast.Call) and norm(strip_cast(s_.value).func) == "self.msg_queue.get" for s_ in b_)
+        h = enclosing(r, (ast.ExceptHandler,))
+        in_empty = h is not None and h.type is not None and "Empty" in norm(h.type)
+        rep.check(from_queue or in_empty, "queue-order", fq, r, "get_msg() answers without having looked at the message queue (or outside the queue.Empty handler): responses the provider thread already queued - possibly the final one - are overtaken and never surfaced to the caller", mod=dm, node=r)
+    rep.floor("get_msg return sites", n, 2)
+
+
+def check_type_dispatch(repo: Repo, rep: Report) -> None:
+    """_wrap_get_move_responses admits C_STORE / C_GET / C_MOVE messages and describes the response through
+    a table keyed by message type. Every admitted type must either be consumed by its own branch or be a
+    key of that table: evaluated per admitted type over the loop body's flow graph (isinstance tests on
+    the message are decided, anything else goes both ways)."""
+    am = repo.mod("association")
+    fn = repo.func("association", "Association._wrap_get_move_responses")
+    fq = "association.Association._wrap_get_move_responses"
+    guard = None
+    for i in walk_no_nested(fn):
+        if isinstance(i, ast.If):
+            t = i.test
+            if isinstance(t, ast.UnaryOp) and isinstance(t.op, ast.Not) and isinstance(t.operand, ast.Call) and norm(t.operand.func) == "isinstance" and isinstance(t.operand.args[1], ast.Tuple):
+                guard = t.operand
+    tables = [s_ for s_ in walk_no_nested(fn) if isinstance(s_, ast.Assign) and isinstance(s_.value, ast.Dict) and all(isinstance(k_, ast.Constant) and isinstance(k_.value, str) and k_.value.startswith(("C-", "N-")) for k_ in s_.value.keys) and s_.value.keys]
+    if guard is None or len(tables) != 1:
+        rep.defer(f"{fq}: admitted-type guard / type-keyed table not recognised")
+        return
+    msgvar = norm(guard.args[0])
+    admitted = [norm(e) for e in guard.args[1].elts]
+    tname = norm(tables[0].targets[0])
+    keys = {k_.value for k_ in tables[0].value.keys}
+    cfg = CFG(fn, body=body_nodoc(fn), local_exc_only=True)
+    uses = [n for n in cfg.nodes if n.kind in ("stmt", "test") and n.ast is not None and any(isinstance(x, ast.Subscript) and norm(x.value) == tname and isinstance(x.ctx, ast.Load) for x in ast.walk(n.ast.test if n.kind == "test" else n.ast))]
+    if not uses:
+        rep.defer(f"{fq}: no lookup in {tname}")
+        return
+
+    def decide(t, typ):
+        """True / False / None for a test given that the message is of class `typ`"""
+        if isinstance(t, ast.UnaryOp) and isinstance(t.op, ast.Not):
+            v = decide(t.operand, typ)
+            return None if v is None else not v
+        if isinstance(t, ast.Call) and norm(t.func) == "isinstance" and len(t.args) == 2 and norm(t.args[0]) == msgvar:
+            ts = [norm(e) for e in t.args[1].elts] if isinstance(t.args[1], ast.Tuple) else [norm(t.args[1])]
+            return typ in ts
+        if isinstance(t, ast.Compare) and len(t.ops) == 1 and isinstance(t.ops[0], (ast.Is, ast.IsNot)) and norm(t.left) == msgvar and norm(t.comparators[0]) == "None":
+            return isinstance(t.ops[0], ast.IsNot)
+        if isinstance(t, ast.BoolOp):
+            vs = [decide(v, typ) for v in t.values]
+            if isinstance(t.op, ast.And):
+                return False if any(v is False for v in vs) else True if all(v is True for v in vs) else None
+            return True if any(v is True for v in vs) else False if all(v is False for v in vs) else None
+        return None
+
+    for typ in admitted:
+        def transfer(n, st, typ=typ):
+            if n.kind == "test":
+                v = decide(n.ast.test, typ)
+                if v is True:
+                    return [(st, {"true", "exc"})]
+                if v is False:
+                    return [(st, {"false", "exc"})]
+            return [(st, None)]
+
+        ins, _ = typestate(cfg, "live", transfer)
+        reach = [u for u in uses if ins.get(u.id)]
+        key = typ.replace("_", "-")
+        ok = not reach or key in keys
+        rep.check(ok, "failure-path", fq, f"a {typ} message and the lookup {tname}[..]", f"a {typ} message admitted by the type guard can reach `{norm(reach[0].ast)[:60] if reach else ''}` although {tname} has no entry for it ({sorted(keys)}): KeyError escapes the response generator - the caller gets neither the final response nor (Dataset(), None), the real final response stays queued and the reactor stays paused", mod=am, node=reach[0].ast if reach else fn)
